@@ -179,6 +179,15 @@ Proof.
   - destruct (IH i it it' H Hf) as [_ IH']. destruct (is_live_original x); cbn; now rewrite IH'.
 Qed.
 
+Lemma filter_upd_nonorig insts : forall i it',
+  is_live_original it' = false ->
+  (length (filter is_live_original (upd insts i it')) <= length (filter is_live_original insts))%nat.
+Proof.
+  induction insts as [|x insts IH]; intros [|i] it' H; cbn [upd filter]; try lia.
+  - rewrite H. destruct (is_live_original x); cbn [length]; lia.
+  - specialize (IH i it' H). destruct (is_live_original x); cbn [length]; lia.
+Qed.
+
 Lemma live_inst_nth w i it : live_inst w i = Some it -> nth_opt (w_insts w) i = Some it /\ i_alive it = true.
 Proof.
   unfold live_inst. destruct (nth_opt (w_insts w) i) as [x|]; [|discriminate].
@@ -198,7 +207,12 @@ Proof.
   assert (Hupd : forall insts i it it', nth_opt insts i = Some it -> is_live_original it' = is_live_original it ->
             length (filter is_live_original (upd insts i it')) = length (filter is_live_original insts)).
   { intros. now apply (filter_upd_same_flags insts i it it'). }
-  destruct b as [i m a|i|i|i|i|i|i|i|i m a|n| |i m a].
+  destruct b as [i m a|i|i|i|i|i|i|i|i m a|n| |i m a|i j].
+  13: { (* clone_from: a clone is appended, the old value is killed, two slots are overwritten with non-originals *)
+    destruct (Nat.eqb i j); [cbn; lia|].
+    destruct (live_inst w i) as [it|]; [|cbn; lia]. destruct (live_inst w j) as [src|]; [|cbn; lia].
+    cbn [fst]. unfold originals, set_insts. cbn [w_insts].
+    apply filter_upd_nonorig. reflexivity. }
   - (* call *)
     destruct (live_inst w i) as [it|] eqn:Hl; [|cbn; lia]. apply live_inst_nth in Hl as [Hn _].
     destruct (matcher_panics (w_cfg w) (w_state w) m a) as [sp|]; [cbn [fst]; unfold originals, set_state; cbn [w_insts]; lia|].
@@ -279,10 +293,11 @@ Proof. intros H1 Hn Ho. rewrite (originals_kill w i it Hn), Ho, H1. reflexivity.
 Theorem dead_instance_inert w x b :
   (forall i, match b with
              | BCall j _ _ | BCallOwn j _ _ | BCallD j _ _ => j = i | BClone j | BDrop j | BVerify j | BNvid j | BReport j
-             | BLend j | BCount j => j = i | BArm _ | BLive => False end -> live_inst w i = None) ->
+             | BLend j | BCount j => j = i | BCloneFrom j _ => j = i | BArm _ | BLive => False end -> live_inst w i = None) ->
   (match b with BArm _ | BLive => False | _ => True end) ->
   step w {| ev_ctx := x; ev_base := b |} = (w, "invalid"%string).
 Proof.
   intros H Hb. unfold step. cbn [ev_base ev_ctx].
-  destruct b as [i m a|i|i|i|i|i|i|i|i m a|n| |i m a]; try contradiction; now rewrite (H i eq_refl).
+  destruct b as [i m a|i|i|i|i|i|i|i|i m a|n| |i m a|i j]; try contradiction; try now rewrite (H i eq_refl).
+  destruct (Nat.eqb i j); [reflexivity|]. now rewrite (H i eq_refl).
 Qed.
